@@ -171,3 +171,28 @@ PROPERTIES["C08"]["rules"] += [ker.ker_panel]
 PROPERTIES["C10"]["rules"] += [bel.bellman_form, qa.qa_siblings]
 PROPERTIES["C10"].setdefault("filter", {})["R13.ALG1"] = lambda o: o.key.startswith(("AX6", "ALG1:stochastic", "ALG1:nonlast:states", "ALG1:last:states"))
 PROPERTIES["C10"]["explanation"] += " Node axes of values and weights come from one list in one order, whatever the declaration order of functions (AX6); sibling selections (QA3)."
+
+# soft agreement of plumbing functions + definite-assignment
+_SOFT = {
+    "C01": [ker.soft_entry, ker.soft_solve, ker.soft_uandf, ker.soft_space],
+    "C02": [ker.soft_simulate, ker.soft_entry],
+    "C03": [ker.soft_simulate, ker.soft_process],
+    "C04": [ker.soft_simulate],
+    "C05": [ker.soft_varinfo, ker.soft_space, ker.soft_solve],
+    "C06": [ker.soft_entry, ker.soft_simulate, ker.soft_solve],
+    "C07": [ker.soft_process, ker.soft_uandf],
+    "C08": [ker.soft_simulate],
+    "C09": [ker.soft_entry, ker.soft_process],
+    "C10": [ker.soft_varinfo, ker.soft_uandf],
+    "C11": [ker.soft_uandf, ker.soft_entry],
+    "C12": [ker.soft_process, ker.soft_entry, ker.soft_varinfo, ker.soft_space, ker.soft_uandf, ker.soft_simulate, ker.soft_solve],
+    "C13": [ker.soft_simulate],
+    "C14": [ker.soft_space],
+    "C17": [ker.soft_space, ker.soft_varinfo],
+    "C18": [ker.soft_space, ker.soft_entry],
+}
+for _p, _rules in _SOFT.items():
+    PROPERTIES[_p]["rules"] += _rules + [sig.defined_before_use]
+    PROPERTIES[_p]["explanation"] += (" Plumbing functions are additionally compared with their reviewed forms in SOFT mode (KERS): a "
+                                      "deviation confined to a few small sites is refuted, a restructuring is left to the dataflow obligations; "
+                                      "no definitely-unassigned value is used (R0.UNDEF).")
